@@ -77,6 +77,9 @@ func flagsOf(f *glf.Filter) string {
 
 // e2eFields indexes blocks [1,3] of `node` with an integration selecting `fields` and compares
 // every stored column with the node's data. Returns "ok" or a description of the first mismatch.
+// e2eFilterEvery: the next whole-path runs put a filter every value passes on every selected field
+var e2eFilterEvery bool
+
 func e2eFields(node *simnode.Node, chain *simnode.Chain, mode string, fields []string) (string, map[string]any) {
 	return e2eFieldsOn(nil, node, chain, mode, fields, "transfer")
 }
@@ -146,6 +149,18 @@ func e2eFieldsOn(cl *jrpc2.Client, node *simnode.Node, chain *simnode.Chain, mod
 				}
 			}
 			ci.Block[i].Column = "c_" + f
+		}
+		if e2eFilterEvery && mode != "log" {
+			// a filter that every value passes on EVERY selected field (default aggregation): the rows and what
+			// each column must hold stay what they are without filters
+			for i := range ci.Block {
+				switch fieldType(ci.Block[i].Name) {
+				case "bytea":
+					ci.Block[i].Filter = dig.Filter{Op: "ne", Arg: []string{"0x00dead00beef00"}}
+				case "numeric", "int":
+					ci.Block[i].Filter = dig.Filter{Op: "ne", Arg: []string{"987654321987"}}
+				}
+			}
 		}
 	})
 	if err != nil {
@@ -311,9 +326,12 @@ func runC14(e *core.Env) error {
 			modes = append(modes, "log") // same fields with an event declaration
 		}
 		for _, m := range modes {
+			e2eFilterEvery = m != "log" && len(s) >= 2 && r.Chance(1, 3)
 			res, detail := e2eFields(node, chain, m, s)
-			e.Add(core.Case{Impl: res, Spec: "ok", Key: "e2e " + m + " " + strings.Join(s, ","), Nontrivial: true,
-				Tags: []string{"e2e", "mode=" + m, "plan=" + fmt.Sprint(detail["plan"])}, Detail: detail})
+			filtered := e2eFilterEvery
+			e2eFilterEvery = false
+			e.Add(core.Case{Impl: res, Spec: "ok", Key: fmt.Sprintf("e2e %s %s filtered=%v", m, strings.Join(s, ","), filtered), Nontrivial: true,
+				Tags: []string{"e2e", "mode=" + m, "plan=" + fmt.Sprint(detail["plan"]), fmt.Sprintf("pass-all-filter-on-every-field=%v", filtered)}, Detail: detail})
 		}
 	}
 	return nil
